@@ -105,6 +105,8 @@ static void raise_sig(int sig)
 		for (i = 0; i < NEV; i++) if (added[i] && sig_of[i] == sig) due[i]++;
 }
 
+static int same_disposition(const struct sigaction *x, const struct sigaction *y);
+static int others_added(int i);
 static void cb(evutil_socket_t fd, short what, void *arg)
 {
 	int i = *(const int *)arg;   /* (a small integer cast to void* would make event_assign's `arg == event_self_cbarg()` test symbolic) */
@@ -122,6 +124,8 @@ static void cb(evutil_socket_t fd, short what, void *arg)
 		r = event_del(&sev[i]);
 		VP_ASSERT(r == 0, "C07: event_del inside the callback succeeds");
 		added[i] = 0;
+		if (!others_added(i))
+			VP_ASSERT(same_disposition(&vp_sa[vp_sig_idx(sig_of[i])], &orig[vp_sig_idx(sig_of[i])]), "C07: deleting the last event for a signal (from its own callback) restores the previous disposition");
 	}
 }
 
